@@ -67,10 +67,10 @@ int main() {
             QR r(a.data(), a.size(), c);
             QR r2(r, tbb::split());
             // old range keeps [0, r.size), new range = [r.size+1, r.size+1+r2.size)
-            std::printf("%zu %zu", r.size, r2.size);
-            bool ok = r2.begin == a.data() + r.size + 1 && r.begin == a.data();
+            // old range = [0, r.size), new range = [off, off + r2.size); the model says off = r.size + 1 (pivot excluded)
+            std::printf("%zu %zu %ld", r.size, r2.size, (long)(r2.begin - a.data()));
             for (u64 x : a) std::printf(" %llu", x);
-            if (!ok) std::printf(" BAD-BEGIN");
+            if (r.begin != a.data()) std::printf(" BAD-BEGIN");
             std::puts("");
         } else if (op == "med3") {
             size_t l, m, rr; if (!(in >> l >> m >> rr)) { std::puts("bad-op"); continue; }
